@@ -52,5 +52,74 @@ noncomputable def FloatSem.ofIEEEFused {p : ℕ} {emin : ℤ} {val : T → ℝ} 
 @[simp] theorem FloatSem.ofIEEE_val {p : ℕ} {emin : ℤ} {val : T → ℝ} {Fin : T → Prop} (C : CorrectlyRounded S p emin val Fin) :
     (FloatSem.ofIEEE C).val = val := rfl
 
+/-! ### exactness (C04, second clause) from correct rounding -/
+
+/-- an integer of magnitude at most `2^p` is a float of the format (for `emin ≤ 0`) -/
+theorem isFloat_of_int {p : ℕ} {emin : ℤ} (hp : 1 ≤ p) (he : emin ≤ 0) {r : ℝ} (hi : IsInt r) (hr : |r| ≤ (2 : ℝ) ^ p) :
+    IsFloat p emin r := by
+  obtain ⟨n, rfl⟩ := hi
+  have hn : |n| ≤ 2 ^ p := by
+    have : ((|n| : ℤ) : ℝ) ≤ ((2 ^ p : ℤ) : ℝ) := by push_cast; exact hr
+    exact_mod_cast this
+  by_cases h : |n| < 2 ^ p
+  · exact ⟨n, 0, h, he, by simp⟩
+  · have heq : |n| = 2 ^ p := by omega
+    have hpp : (2 : ℤ) ^ p = 2 ^ (p - 1) * 2 := by
+      have : p = (p - 1) + 1 := by omega
+      conv_lhs => rw [this, pow_succ]
+    rcases abs_choice n with h1 | h1
+    · refine ⟨2 ^ (p - 1), 1, ?_, by omega, ?_⟩
+      · rw [abs_of_nonneg (by positivity)]; exact pow_lt_pow_right₀ (by norm_num) (by omega)
+      · have : n = 2 ^ (p - 1) * 2 := by rw [← hpp, ← heq, h1]
+        rw [this]; push_cast; simp
+    · refine ⟨-2 ^ (p - 1), 1, ?_, by omega, ?_⟩
+      · rw [abs_neg, abs_of_nonneg (by positivity)]; exact pow_lt_pow_right₀ (by norm_num) (by omega)
+      · have : n = -(2 ^ (p - 1) * 2) := by rw [← hpp, ← heq, h1]; ring
+        rw [this]; push_cast; simp
+
+/-- correct rounding plus "a result of magnitude at most `2^p` does not overflow" -/
+structure CorrectlyRoundedTotal (S : ScalarSpec T) (fm : T → T → T → T) (p : ℕ) (emin : ℤ) (val : T → ℝ) (Fin : T → Prop) : Prop
+    extends CorrectlyRounded S p emin val Fin where
+  emin_le : emin ≤ 0
+  zero_fin : Fin S.zero
+  add_fin : ∀ x y, Fin x → Fin y → |val x + val y| ≤ (2 : ℝ) ^ p → Fin (S.add x y)
+  mul_fin : ∀ x y, Fin x → Fin y → |val x * val y| ≤ (2 : ℝ) ^ p → Fin (S.mul x y)
+  fm_fin : ∀ x y acc, Fin x → Fin y → Fin acc → |val x * val y| ≤ (2 : ℝ) ^ p → |val x * val y + val acc| ≤ (2 : ℝ) ^ p →
+    Fin (fm x y acc)
+  fm_nearest : ∀ x y acc, Fin (fm x y acc) → (∃ r, IsNearest p emin (val x * val y) r ∧ IsNearest p emin (r + val acc) (val (fm x y acc)))
+    ∨ IsNearest p emin (val x * val y + val acc) (val (fm x y acc))
+
+theorem IsInt.add' {x y : ℝ} (hx : IsInt x) (hy : IsInt y) : IsInt (x + y) := by
+  obtain ⟨a, rfl⟩ := hx; obtain ⟨b, rfl⟩ := hy; exact ⟨a + b, by push_cast; rfl⟩
+theorem IsInt.mul' {x y : ℝ} (hx : IsInt x) (hy : IsInt y) : IsInt (x * y) := by
+  obtain ⟨a, rfl⟩ := hx; obtain ⟨b, rfl⟩ := hy; exact ⟨a * b, by push_cast; rfl⟩
+
+/-- **`ExactSem` from IEEE**: integer-valued operands whose exact results stay within `2^p` are computed exactly, whether
+the multiply-add is fused (one rounding) or not (two) -/
+noncomputable def ExactSem.ofIEEE {p : ℕ} {emin : ℤ} {val : T → ℝ} {Fin : T → Prop}
+    (C : CorrectlyRoundedTotal S fm p emin val Fin) : ExactSem S fm where
+  val := val
+  Fin := Fin
+  P := (2 : ℝ) ^ p
+  zero_val := C.zero_val
+  zero_fin := C.zero_fin
+  add_exact := by
+    intro x y hx hy ix iy hb
+    have hf := C.add_fin x y hx hy hb
+    exact ⟨hf, (C.add x y hf).2.2.eq_of_isFloat (isFloat_of_int C.hp C.emin_le (ix.add' iy) hb)⟩
+  mul_exact := by
+    intro x y hx hy ix iy hb
+    have hf := C.mul_fin x y hx hy hb
+    exact ⟨hf, (C.mul x y hf).eq_of_isFloat (isFloat_of_int C.hp C.emin_le (ix.mul' iy) hb)⟩
+  fm_exact := by
+    intro x y acc hx hy ha ix iy ia hb1 hb2
+    have hf := C.fm_fin x y acc hx hy ha hb1 hb2
+    refine ⟨hf, ?_⟩
+    rcases C.fm_nearest x y acc hf with ⟨r, h1, h2⟩ | h
+    · have e1 := h1.eq_of_isFloat (isFloat_of_int C.hp C.emin_le (ix.mul' iy) hb1)
+      rw [e1] at h2
+      exact h2.eq_of_isFloat (isFloat_of_int C.hp C.emin_le ((ix.mul' iy).add' ia) hb2)
+    · exact h.eq_of_isFloat (isFloat_of_int C.hp C.emin_le ((ix.mul' iy).add' ia) hb2)
+
 end
 end Cfavml.FloatReduce
